@@ -4,8 +4,8 @@ Generated models (own generator: 1-D / 2-D arrays, arrays of components holding
 arrays, a scalar component holding an array of components, derivatives of
 arrays, array-valued / `each` / broadcast / parameter-dependent attributes,
 array outputs, delayed scalars and arrays, index-sensitive equations) are
-compiled twice: m0 without and m1 with `expand_vectors` (half of the cases
-together with `expand_mx`).  A small reference flattener working on the
+compiled three times: m0 without `expand_vectors`, m1 with it, and m1x with
+`expand_vectors` and `expand_mx` (expansion at the start of simplify).  A small reference flattener working on the
 abstract model says which scalars every array variable must become and which
 attribute element each of them must carry; the residual functions of m0 and m1
 are compared at drawn points with m0's arrays filled *by expanded name*."""
@@ -32,7 +32,7 @@ RULE = (
     "slice equations, for-loops with shifted index (1-D and over one index of a 2-D array), transpose, "
     "matrix*vector, elementwise, nested element references, delays of an element / in a for-loop / of a "
     "whole 1-D or 2-D array / of a nested element; 0-3 initial equations; each pair (m0, m1) is evaluated "
-    "at 2 drawn points.  non-trivial = a non-square 2-D array or a nested component array occurs in an "
+    "at 2 drawn points, for expand_vectors alone and together with expand_mx.  non-trivial = a non-square 2-D array or a nested component array occurs in an "
     "index-sensitive equation; distinct = distinct abstract model."
 )
 ASSUMPTIONS = [
@@ -269,11 +269,12 @@ def build_models(case, text):
     from pymoca.backends.casadi import generator
 
     models = []
-    for opts in ({"expand_vectors": False}, {"expand_vectors": True, "expand_mx": bool(case["mx"])}):
-        tree = guarded(parser.parse, text, bypass_cache=True, where="parse")
-        if tree is None:
-            raise Violation("valid_text_rejected", "parse returned None:\n" + text)
-        tag = "expanded" if opts["expand_vectors"] else "unexpanded"
+    # one parse for both: generate() flattens a copy of the class (that a tree can be reused is C05's property)
+    tree = guarded(parser.parse, text, bypass_cache=True, where="parse")
+    if tree is None:
+        raise Violation("valid_text_rejected", "parse returned None:\n" + text)
+    for opts in ({"expand_vectors": False}, {"expand_vectors": True, "expand_mx": False}, {"expand_vectors": True, "expand_mx": True}):
+        tag = ("expanded_mx" if opts["expand_mx"] else "expanded") if opts["expand_vectors"] else "unexpanded"
         try:
             m = guarded(generator.generate, tree, "M", dict(opts), where="generate_" + tag)
             guarded(m.simplify, dict(opts), where="simplify_" + tag)
@@ -307,13 +308,23 @@ def check_case(ctx, case):
 
 
 def _check_case(ctx, case):
-    import casadi as ca
-
     text = print_case(case)
     L = leaves(case)
-    m0, m1 = build_models(case, text)
+    m0, m1, m1x = build_models(case, text)
     labels = set(case["feats"])
-    labels.add("expand_mx" if case["mx"] else "plain_mx")
+    # both places where simplify() runs the expansion: after the parameter handling (expand_mx off) and at
+    # the start of the simplification, followed by the SX round trip (expand_mx on)
+    check_pair(case, text, L, m0, m1, labels, "expand_vectors")
+    check_pair(case, text, L, m0, m1x, labels, "expand_vectors+expand_mx")
+    if has_feature(case):
+        labels.add("feature:" + FEATURE)
+    return dict(nontrivial=bool(case["nt"]), labels=sorted(labels), sample={"text": text})
+
+
+def check_pair(case, text, L, m0, m1, labels, how):
+    import casadi as ca
+
+    text = "[%s]\n%s" % (how, text)
 
     # ---- (a) names ---------------------------------------------------
     groups = {}  # m0 variable name -> [(expanded name, idx)]
@@ -514,9 +525,6 @@ def _check_case(ctx, case):
                 labels.add("attr:trailing_dims_only")
             if spec_nd(spec) == 2:
                 labels.add("attr:2d")
-    if has_feature(case):
-        labels.add("feature:" + FEATURE)
-    return dict(nontrivial=bool(case["nt"]), labels=sorted(labels), sample={"text": text, "expand_mx": case["mx"]})
 
 
 def by_shape(m, name):
@@ -620,6 +628,7 @@ def case_strategy(draw, ctx=None):
             return ("each", "scalar")
         return ("lit", "lit", "fill", "each", "scalar")
 
+    seed = draw(st.integers(0, 2**31 - 1))
     n = draw(st.sampled_from([2, 3, 3]))
     r, c = draw(st.sampled_from(SHAPES))
     wn = draw(st.sampled_from([2, 3]))
@@ -632,7 +641,7 @@ def case_strategy(draw, ctx=None):
         return fnum(draw(st.sampled_from(COEFS)))
 
     comps = draw(st.lists(st.sampled_from(["s", "h", "t", "g"]), max_size=3, unique=True))
-    if not comps and draw(st.integers(0, 3)):
+    if not comps and draw(st.integers(0, 5)):
         comps = [draw(st.sampled_from(["s", "h", "s", "t"]))]
     ks = draw(st.sampled_from([1, 2, 2, 3]))
     ks2 = draw(st.sampled_from([2, 2, 3]))
@@ -716,7 +725,7 @@ def case_strategy(draw, ctx=None):
         decl("A", dims=[r, c], attrs=draw(attr_set([r, c], sym=draw(st.sampled_from(["PV", "pm"]))))),
         decl("B", dims=[r, c], attrs=draw(attr_set([r, c], max_n=2))),
         decl("Bt", dims=[c, r], attrs=draw(attr_set([c, r], max_n=1))),
-        decl("p", prefix="parameter", dims=[n], attrs={"value": draw(array_spec([n], forms=("lit", "lit", "fill")))}),
+        decl("p", prefix="parameter", dims=[n], attrs={"value": draw(array_spec([n], forms=("lit", "lit", "fill"), sym="pv"))}),
         decl("P", prefix="parameter", dims=[r, c], attrs=dict(draw(attr_set([r, c], max_n=1)), value=draw(array_spec([r, c], forms=("lit", "lit", "fill"))))),
         decl("c3", prefix="constant", dims=[n], attrs={"value": draw(array_spec([n], forms=("lit",)))}),
         decl("ip", "Integer", prefix="parameter", dims=[n], attrs={"value": draw(array_spec([n], "int", forms=("lit", "fill")))}),
@@ -757,7 +766,7 @@ def case_strategy(draw, ctx=None):
     sens2d, sensnest = set(), set()  # index-sensitive templates on the 2-D arrays / nested arrays
 
     def shift_loop():
-        s = draw(st.sampled_from([0, 1, -1, 1, -1]))
+        s = draw(st.sampled_from([1, -1, 1, -1, 0]))
         lo, hi = 1 + max(0, -s), n - max(0, s)
         sub = "i" if s == 0 else ("i+%d" % s if s > 0 else "i-%d" % -s)
         return lo, hi, sub, s
@@ -845,9 +854,10 @@ def case_strategy(draw, ctx=None):
     order = draw(st.permutations(names))
     chosen = list(order[:neq])
     # make sure the index-sensitive constructs of the non-trivial rule occur
-    want = [t[0] for t in pool if t[3]] if (comps and draw(st.integers(0, 4))) else []
-    if want and not any(k in want for k in chosen):
-        chosen[0] = draw(st.sampled_from(want))
+    for comp in comps:
+        mine = [t[0] for t in pool if t[0].endswith(":" + comp)]
+        if not any(k in mine for k in chosen) and draw(st.integers(0, 3)):
+            chosen.append(draw(st.sampled_from(mine)))
     want2 = [t[0] for t in pool if t[2]]
     if not any(k in want2 for k in chosen):
         chosen[-1] = draw(st.sampled_from(want2))
@@ -890,8 +900,7 @@ def case_strategy(draw, ctx=None):
     if excluded[0] and ctx is not None:
         ctx.exclude(FEATURE)
     return {
-        "seed": draw(st.integers(0, 2**31 - 1)),
-        "mx": draw(st.booleans()),
+        "seed": seed,
         "classes": classes,
         "top": {"decls": decls, "eqs": eqs, "ieqs": ieqs},
         "feats": sorted(feats),
